@@ -372,12 +372,38 @@ class Interp:
                         return U
                     d[k.arg] = v
                 return d
-            if fn == "sorted" and e.keywords:
-                rev = [k for k in e.keywords if k.arg == "reverse"]
-                if len(rev) != len(e.keywords):
+            if fn in ("sorted", "min", "max") and e.keywords:
+                rev, keyf = False, None
+                for k in e.keywords:
+                    if k.arg == "reverse" and fn == "sorted":
+                        r = self.ev(k.value)
+                        if r is U:
+                            return U
+                        rev = bool(r)
+                    elif k.arg == "key" and isinstance(k.value, ast.Lambda) and len(k.value.args.args) == 1 and not k.value.args.defaults:
+                        lam = k.value
+
+                        def keyf(x, lam=lam):
+                            saved = self.env
+                            self.env = dict(saved)
+                            self.env[lam.args.args[0].arg] = x
+                            try:
+                                v = self.ev(lam.body)
+                            finally:
+                                self.env = saved
+                            if v is U:
+                                raise Unknowable("sort key")
+                            return v
+                    else:
+                        return U
+                if len(args) != 1:
                     return U
-                r = self.ev(rev[0].value)
-                return U if r is U else sorted(*args, reverse=bool(r))
+                try:
+                    if fn == "sorted":
+                        return sorted(args[0], key=keyf, reverse=rev)
+                    return (min if fn == "min" else max)(args[0], key=keyf)
+                except Unknowable:
+                    return U
             if e.keywords:
                 return U
             simple = {"len": len, "sorted": sorted, "list": list, "tuple": tuple, "set": set, "dict": dict, "reversed": lambda x: list(reversed(x)),
